@@ -331,3 +331,44 @@ def run_directed_race(ctx, rng):
         ctx.case({"race": name, "total": total, "held": held}, nontrivial=True, sample=w, max_samples=1)
     finally:
         shutil.rmtree(base, ignore_errors=True)
+
+
+def run_generate_between(ctx, rng):
+    """A normal run, then a generate-only run of the same tasks (job files written again, nothing scheduled), then a normal
+    run: the jobs that succeeded in the first run must not be executed again."""
+    case = enga.Case(ctx.scratch / f"g{rng.randrange(10**9)}")
+    w = {"kind": "generate-between"}
+    try:
+        njobs = rng.randint(1, 3)
+        jobs = []
+        for x in range(njobs):
+            deps = [{"on": rng.randrange(x), "how": rng.choice(["direct", "lst"])}] if x > 0 and rng.random() < 0.5 else []
+            jobs.append({"x": x, "deps": deps, "hold": 0})
+        w["jobs"] = jobs
+        env = case.job_env(go=False)
+        order = ["normal", "generate", "normal"] if rng.random() < 0.7 else ["normal", "generate", "generate", "normal"]
+        w["runs"] = order
+        for i, mode in enumerate(order):
+            plan = {"name": "xp", "jobs": jobs, "tokens": [], "env": env}
+            if mode == "generate":
+                plan["run_mode"] = "generate"
+            h = case.start(plan)
+            if not case.wait_exit(h, 120):
+                ctx.inconclusive(f"generate-between: run {i} ({mode}) did not end")
+                return
+            r = case.result(h)
+            if r is None:
+                err = (case.base / f"{h['tag']}.err").read_text()[-400:]
+                ctx.violation("scheduler-crashed:generate-between", f"run {i} ({mode}) ended without result: {err}", w)
+                return
+            if mode == "normal" and (r["outcome"] != "returned" or any(s != "DONE" for s in r["states"].values())):
+                ctx.violation("stress-final-states:generate-between", f"run {i} ended {r['outcome']} with {r['states']}", w)
+        ctx.count("generate_between_cases")
+        ev = enga.parse_body(case.body_log())
+        w["log"] = case.body_log()[:30]
+        for x, msg in enga.exactly_once(ev, list(range(njobs))):
+            ctx.violation("body-run-again-after-generate-only-run", f"job {x}: {msg} over the runs {order} (log: {case.body_log()})", w)
+        ctx.case({"k": "generate-between", "jobs": jobs, "runs": order}, nontrivial=True, sample={"runs": order, "log": case.body_log()[:8]}, max_samples=1)
+    finally:
+        case.cleanup()
+        shutil.rmtree(case.base, ignore_errors=True)
